@@ -74,18 +74,19 @@ theorem C11_partial_selection_iff (cfg : Cfg) (fs : FS) (nd : Bool) (ftp : List 
         (cfg.keep = [] ∨ setMatch cfg.keep rel = true) ∧
         (cfg.ignoreNotExisting = true → fs.exists abs = true) ∧
         filterOk cfg.filter kc.2 = true ∧
-        r = ⟨abs, bsl rel, kc.2⟩ := by
+        r = ⟨abs, rel, kc.2⟩ := by
   rw [rewriteKeyJ_some_iff]
   constructor
   · rintro ⟨a, rl, h1, h2⟩; exact ⟨a, rl, h1, (selectRec_some_iff _ _ _ _ _ _).1 h2⟩
   · rintro ⟨a, rl, h1, h2⟩; exact ⟨a, rl, h1, (selectRec_some_iff _ _ _ _ _ _).2 h2⟩
 
-/-- The path part is `get_abs_path` of the looked-up path: mapping, prefix removal, THEN the
-lookup, then everything else. -/
+/-- The path part is `get_abs_path` of the looked-up path, then the final step: mapping, prefix
+removal, THEN the lookup, then `get_abs_path`, then backslashes to '/' and a second normalisation. -/
 theorem C11_partial_pipeline_order (cfg : Cfg) (fs : FS) (ord : List (List Bytes)) (keys : List Bytes)
     (key abs rel : Bytes)
     (h : resolveKeyJ cfg fs (needed cfg fs keys) (fileToPaths fs ord cfg keys) key = .ok (some (abs, rel))) :
-    getAbsPath fs cfg.sourceDir (mappedPath cfg fs ord keys key) = .ok (some (abs, rel)) :=
+    ∃ r0, getAbsPath fs cfg.sourceDir (mappedPath cfg fs ord keys key) = .ok (some (abs, r0)) ∧
+      normalizePath (bsl r0) = some rel :=
   resolveKeyJ_some h
 
 /-- Coverage data is passed through unchanged, and no entry yields more than one record. -/
@@ -161,11 +162,11 @@ theorem C11_partial_unique_candidate (cfg : Cfg) (fs : FS) (ord : List (List Byt
   rw [((C11_partial_when cfg fs ord keys key).1 hnd hext).2, C11_partial_lookup _ _ _ _ _ n hn,
     candidatesFor_unique hS hres hroot n rel hord hmem hc huniq]
 
-/-- … and the key is then reported under that file: with a clean absolute source dir `/sn…` and
-the file existing, the resolved pair is (`source_dir/rel`, `rel`). -/
+/-- … and the key is then reported under that file: with a clean absolute source dir `/sn…`, the
+file existing and its names free of backslashes, the resolved pair is (`source_dir/rel`, `rel`). -/
 theorem C11_partial_unique_reported (cfg : Cfg) (fs : FS) (ord : List (List Bytes)) (keys : List Bytes)
     (key n : Bytes) (sn rel : List Bytes)
-    (hsn : ∀ x ∈ sn, RealName x) (hrel : ∀ x ∈ rel, RealName x)
+    (hsn : ∀ x ∈ sn, RealName x) (hrel : ∀ x ∈ rel, RealName x) (hbs : ∀ x ∈ rel, 92 ∉ x)
     (hS : cfg.sourceDir = some (render ⟨true, sn⟩))
     (hres : fs.resolve (render ⟨true, sn⟩) = some (sn, .dir))
     (hroot : hidden (rootName (render ⟨true, sn⟩)) = false)
@@ -183,7 +184,10 @@ theorem C11_partial_unique_reported (cfg : Cfg) (fs : FS) (ord : List (List Byte
   unfold mappedPath at hm
   unfold resolveKeyJ
   rw [hkey, hm, hS]
-  simpa using getAbsPath_under_source hsn hrel hne hfile
+  simp only [Bool.false_eq_true, if_false]
+  rw [getAbsPath_under_source hsn hrel hne hfile]
+  simp only [finishPath]
+  rw [join_eq_render, finalRel_render (np := ⟨false, rel⟩) hrel hbs]
 
 /-- Several candidates, exactly one of which ends with the path: that one. -/
 theorem C11_partial_unique_suffix (cfg : Cfg) (fs : FS) (ord : List (List Bytes)) (keys : List Bytes)
@@ -239,23 +243,18 @@ theorem C11_partial_candidates_normal (cfg : Cfg) (fs : FS) (ord : List (List By
   obtain ⟨p, hp, hxp⟩ := hrel x hx
   exact hreal p hp x hxp
 
-/-- `C11_normal_form_partial` for `rewritePathsJ`: the path matched against the globs is in normal
-form; the reported one is that path with backslashes turned into '/', in normal form whenever no
-backslash survives (same guard, same finding C11-mapping-backslash as without the lookup). -/
-theorem C11_partial_normal_form_partial (cfg : Cfg) (fs : FS) (nd : Bool) (ftp : List (Bytes × List Bytes))
+/-- `C11_normal_form`, `C11_no_backslash` and `C11_abs_normal_form` for `rewritePathsJ`: every
+reported relative path is in normal form and contains no backslash, every reported absolute path is
+in normal form — whatever the lookup answered (since fix 568afd2 no guard is needed). -/
+theorem C11_partial_normal_form (cfg : Cfg) (fs : FS) (nd : Bool) (ftp : List (Bytes × List Bytes))
     (kc : Bytes × Cov) (r : Rec) (h : rewriteKeyJ cfg fs nd ftp kc = .ok (some r)) :
-    ∃ abs rel0, resolveKeyJ cfg fs nd ftp kc.1 = .ok (some (abs, rel0)) ∧ NormalFormP rel0 ∧
-      NormalFormP abs ∧ r.abs = abs ∧ r.rel = bsl rel0 ∧ (92 ∉ rel0 → NormalFormP r.rel) := by
+    NormalFormP r.rel ∧ 92 ∉ r.rel ∧ NormalFormP r.abs := by
   obtain ⟨a, rl, h1, _, _, _, _, e⟩ := (C11_partial_selection_iff cfg fs nd ftp kc r).1 h
-  obtain ⟨ac, _, hna, hn⟩ := (getAbsPath_some_iff _ _ _ _ _).1 (resolveKeyJ_some h1)
-  obtain ⟨np, enp, hreal, _⟩ := normalizePath_shape hn
+  obtain ⟨r0, hg, hf⟩ := resolveKeyJ_some h1
+  obtain ⟨ac, _, hna, _⟩ := (getAbsPath_some_iff _ _ _ _ _).1 hg
   obtain ⟨npa, enpa, hreala, _⟩ := normalizePath_shape hna
-  refine ⟨a, rl, h1, ⟨np, enp, hreal⟩, ⟨npa, enpa, hreala⟩, by rw [e], by rw [e], ?_⟩
-  intro hb
   rw [e]
-  show NormalFormP (bsl rl)
-  rw [bsl_id hb]
-  exact ⟨np, enp, hreal⟩
+  exact ⟨(finalRel_shape hf).1, (finalRel_shape hf).2, ⟨npa, enpa, hreala⟩⟩
 
 /-! ### partitions -/
 
@@ -431,7 +430,8 @@ example : IsCandidate pwFS { pwCfg with ignore := pwG } (pwMap.map (·.1)) [[115
     pwOrd.Nodup ∧ pwFS.resolve (render ⟨true, [[115]]⟩) = some ([[115]], .dir) ∧
     hidden (rootName (render ⟨true, [[115]]⟩)) = false ∧
     pwFS.resolve (render ⟨true, [[115]] ++ [[98], [121], [70, 111, 111, 46, 106, 97, 118, 97]]⟩) =
-      some ([[115]] ++ [[98], [121], [70, 111, 111, 46, 106, 97, 118, 97]], .file) := by
+      some ([[115]] ++ [[98], [121], [70, 111, 111, 46, 106, 97, 118, 97]], .file) ∧
+    (∀ x ∈ [[98], [121], [70, 111, 111, 46, 106, 97, 118, 97]], 92 ∉ x) := by
   unfold IsCandidate
   decide +kernel
 
